@@ -176,7 +176,7 @@ fn run_shuttle<S: shuttle::scheduler::Scheduler + 'static>(scheduler: S, body: i
             let (graph, locks) = shim::wait_for_graph();
             let lock_names = locks.iter().map(|l| LOCK_NAMES[*l]).collect::<Vec<_>>().join(",");
             if msg.starts_with("deadlock!") {
-                Err(("deadlock".into(), "lock_cycle".into(), lock_names, format!("no task is runnable: {}", graph)))
+                Err(("deadlock".into(), "lock_cycle".into(), lock_names, format!("no task is runnable: {}", if graph.is_empty() { "all unfinished tasks are blocked on harness-owned mutexes".to_string() } else { graph })))
             } else if msg.contains("exceeded max_steps") {
                 Err(("livelock".into(), "step_cap".into(), lock_names, format!("more than {} scheduling decisions; {}", MAX_STEPS, graph)))
             } else {
@@ -541,6 +541,19 @@ fn child_replay(a: ChildArgs) -> ! {
         "ran_past_recording": sh.ran_past_recording,
     });
     emit("O", &out);
+    std::process::exit(0)
+}
+
+// ---------------------------------------------------------------------------------------------
+// child: the scenario on the real OS thread, no callbacks, no shuttle (cross-check of a reported
+// self-deadlock: the real std mutex must really hang)
+
+fn child_real(a: ChildArgs) -> ! {
+    let s = leak_scenario(&a.scenario);
+    let order: Vec<usize> = (0..s.threads.len()).collect();
+    savefile_abi::verif_hooks::reset_caches();
+    let obs = scen::run_body(s, &Mode::Sequential(order), &a.plugin);
+    emit("O", &json!({"completed": true, "observed": obs_json(&obs)}));
     std::process::exit(0)
 }
 
@@ -945,6 +958,9 @@ fn main() {
     if let Some(id) = opt(&args.extra, "--child-replay") {
         child_replay(child_args(&args.extra, id));
     }
+    if let Some(id) = opt(&args.extra, "--child-real") {
+        child_real(child_args(&args.extra, id));
+    }
     let prop = args.property.clone();
     if let Some(p) = &args.replay {
         replay_mode(&prop, p);
@@ -987,15 +1003,10 @@ fn main() {
     let scenarios: Vec<Scenario> = scen::all().into_iter().filter(|s| !s.selftest && (thorough || !s.thorough_only) && (!s.needs_plugin || plugin.is_some())).collect();
     let mut jobs = vec![];
     for s in &scenarios {
-        let maxb = if thorough { 3 } else { 2 };
         let mut prev = None;
-        let nb = if s.threads.is_empty() { 0 } else { maxb };
-        for b in 0..=nb {
-            jobs.push(Job { scenario: s.id, bound: Some(b), prev });
-            prev = Some(b);
-        }
-        if thorough && s.unbounded_in_thorough {
-            jobs.push(Job { scenario: s.id, bound: None, prev });
+        for b in s.bounds(thorough) {
+            jobs.push(Job { scenario: s.id, bound: b, prev });
+            prev = b;
         }
     }
     let results = run_jobs(&prop, &jobs, &lim, &plugin, workers);
@@ -1028,6 +1039,20 @@ fn main() {
                     reported = true;
                     match confirm(&prop, f, &plugin, lim.child_timeout_s) {
                         Ok(o) => {
+                            let mut real_run = Value::Null;
+                            if f["kind"].as_str() == Some("self_reentrant") {
+                                // cross-check without shim and scheduler: the real mutex must hang
+                                let mut a: Vec<String> = vec!["--child-real".into(), s.id.into()];
+                                if let Some(p) = &plugin {
+                                    a.push("--plugin".into());
+                                    a.push(p.clone());
+                                }
+                                let out = run_child(&prop, &a, 3);
+                                if out.lines.iter().any(|(p, v)| *p == 'O' && v["completed"].as_bool() == Some(true)) {
+                                    vcommon::machinery_error(&format!("scenario {}: the shim reported a self-deadlock but the same operations complete on the real code without the shim", s.id));
+                                }
+                                real_run = json!(if out.timed_out { "same operations on the real OS thread without shim or scheduler: no progress, killed after 3 s" } else { "real run ended abnormally" });
+                            }
                             let tags = vcommon::tags(&[
                                 ("scenario", s.id.to_string()),
                                 ("kind", f["kind"].as_str().unwrap_or("").to_string()),
@@ -1050,6 +1075,7 @@ fn main() {
                                     "bound": bname, "oracle": f["oracle"], "kind": f["kind"], "locks": f["locks"],
                                     "setup": format!("{:?}", s.setup), "threads": format!("{:?}", s.threads), "post": format!("{:?}", s.post),
                                     "observed": o["observed"], "reference": o["reference"], "detail": f["detail"],
+                                    "real_run_without_shim": real_run,
                                 }),
                             });
                         }
@@ -1144,7 +1170,7 @@ fn main() {
     cov.insert("exhaustive".into(), json!(exhaustive));
     cov.insert("implementation_operations".into(), json!(ops));
     cov.insert("distinct_outcomes".into(), json!(all_outcomes));
-    cov.insert("preemption_bounds".into(), json!(if thorough { "0..3, unbounded for S1 and S2" } else { "0..2" }));
+    cov.insert("preemption_bounds".into(), json!(if thorough { "0..3 for all scenarios, then unbounded (2-thread scenarios) or 4 and 5 (3-thread scenarios); see scenarios.*.bounds" } else { "0..2" }));
     cov.insert("scenarios".into(), Value::Object(per_scenario));
     cov.insert("explorer_selftest".into(), st.report);
     cov.insert("cdylib".into(), json!(plugin_note));
